@@ -377,6 +377,7 @@ func (c *UConn) handshakeContext(ctx context.Context) (ret error) {
 		if err != nil {
 			return err
 		}
+		verifEmit(c.Conn, "hello_rebuilt", c.HandshakeState.Hello.Raw)
 	}
 	// [uTLS section ends]
 	c.handshakeErr = c.handshakeFn(handshakeCtx)
